@@ -1,7 +1,18 @@
 import Nv.Model.C12
+import Nv.Props.C12
 import Nv.Gen.C12
 /-! C12 — obligations on the definitions regenerated from /repo's current source. -/
 namespace Nv.C12
 theorem tie_facts : Nv.Gen.C12.facts = Facts.expected := by decide
 theorem tie_cfg_proved : Proved Nv.Gen.C12.cfg := by decide
+
+/-- the machine the oracle runs (regenerated configuration) is the machine the theorems are about -/
+theorem tie_step_expected : step Nv.Gen.C12.cfg = step Cfg.expected := by rw [show Nv.Gen.C12.cfg = Cfg.expected from tie_cfg_proved]
+theorem tie_pstep_expected : pstep Nv.Gen.C12.cfg.priq = pstep PriShape.expected := by
+  rw [show Nv.Gen.C12.cfg = Cfg.expected from tie_cfg_proved]; rfl
+
+/-- conservation, on the regenerated configuration -/
+theorem tie_conservation (ops : List Op) (s : LQ) (y : Nat) :
+    (final (step Nv.Gen.C12.cfg) s ops).items.count y + poppedIn y s ops = s.items.count y + addedIn y s ops :=
+  q_conservation _ tie_cfg_proved ops s y
 end Nv.C12
